@@ -240,6 +240,15 @@ func (np *NetworkPolicy) ruleSelectsPeer(rulePeers []netv1.NetworkPolicyPeer, pe
 			var err error
 			if rulePeers[i].NamespaceSelector == nil {
 				peerMatchesNamespaceSelector = (np.ObjectMeta.Namespace == peer.GetPeerPod().Namespace)
+				if !peerMatchesNamespaceSelector && isPeerRepresentative(peer) {
+					// representative peers are unique per selectors; the one representing the pods of the policy's namespace may have
+					// been inferred from a rule selecting that namespace explicitly by its name label (then it has no Namespace)
+					nsNameSelector := &metav1.LabelSelector{MatchLabels: map[string]string{common.K8sNsNameLabelKey: np.ObjectMeta.Namespace}}
+					peerMatchesNamespaceSelector, err = SelectorsFullMatch(nsNameSelector, peer.GetPeerPod().RepresentativeNsLabelSelector)
+					if err != nil {
+						return false, err
+					}
+				}
 			} else {
 				peerNamespace := peer.GetPeerNamespace()
 				var peerNsLabels map[string]string
